@@ -12,7 +12,7 @@ def ids_for(rng, n):
 
 def values(rng, n=None, family=None, nmax=9, allow_zero=True, vmax=None):
     """returns (vals, family name)"""
-    fams = ["small", "medium", "allequal", "twoclusters", "pow2", "onehuge", "big50", "repeats", "nearperfect"]
+    fams = ["small", "medium", "allequal", "twoclusters", "pow2", "onehuge", "big50", "repeats", "nearperfect", "scalednoise"]
     if allow_zero:
         fams += ["zeros", "zeros"]
     family = family or rng.choice(fams)
@@ -53,6 +53,21 @@ def values(rng, n=None, family=None, nmax=9, allow_zero=True, vmax=None):
         if rng.random() < 0.5 and v:
             v[rng.randrange(len(v))] += rng.choice([1, 2])
         v = v[:max(n, 2)] if n < len(v) else v
+    elif family == "scalednoise":
+        # large values that differ only in their low digits (a small near-perfect instance times 10^5..10^9 plus noise):
+        # float tolerances, relative comparisons and lost low-order digits show up here and nowhere else
+        k = rng.randint(2, 4)
+        target = rng.randint(6, 20)
+        v = []
+        for _ in range(k):
+            rest = target
+            while rest > 0 and len(v) < 12:
+                x = rng.randint(1, rest)
+                v.append(x)
+                rest -= x
+        M = rng.choice([10 ** 5, 10 ** 6, 10 ** 7, 10 ** 9])
+        v = [x * M + rng.randint(0, 9) for x in v]
+        v = v[:max(n, 3)] if n < len(v) else v
     elif family == "zeros":
         v = [rng.choice([0, 0, rng.randint(1, 9)]) for _ in range(n)]
     else:
